@@ -690,7 +690,7 @@ func (t *State) Walk(blockid []byte, ledgerPrune bool) error {
 	if err != nil {
 		t.log.Warn("walk fail,find common parent block fail", "dest_block", hex.EncodeToString(blockid),
 			"latest_block", hex.EncodeToString(t.latestBlockid), "err", err)
-		t.recoverAfterFailedWalk(undoList)
+		t.recoverAfterFailedWalk(undoList, nil)
 		return fmt.Errorf("walk find common parent block fail")
 	}
 	xTimer.Mark("walk_find_undo_todo_block")
@@ -700,7 +700,7 @@ func (t *State) Walk(blockid []byte, ledgerPrune bool) error {
 	if err != nil {
 		t.resetMemAfterFailedBlock()
 		t.log.Warn("walk fail,because undo block fail", "err", err)
-		t.recoverAfterFailedWalk(undoList)
+		t.recoverAfterFailedWalk(undoList, nil)
 		return fmt.Errorf("walk undo block fail")
 	}
 	xTimer.Mark("walk_undo_block")
@@ -710,13 +710,13 @@ func (t *State) Walk(blockid []byte, ledgerPrune bool) error {
 	if err != nil {
 		t.resetMemAfterFailedBlock()
 		t.log.Warn("walk fail,because todo block fail", "err", err)
-		t.recoverAfterFailedWalk(undoList)
+		t.recoverAfterFailedWalk(undoList, appliedTxids(todoBlocks, t.latestBlockid))
 		return fmt.Errorf("walk todo block fail")
 	}
 	xTimer.Mark("walk_todo_block")
 
 	// 异步回放被回滚未确认交易
-	go t.recoverUnconfirmedTx(undoList)
+	go t.recoverUnconfirmedTx(undoList, appliedTxids(todoBlocks, t.latestBlockid))
 
 	t.log.Info("utxo walk finish", "dest_block", hex.EncodeToString(blockid),
 		"latest_blockid", hex.EncodeToString(t.latestBlockid), "costs", xTimer.Print())
@@ -726,9 +726,31 @@ func (t *State) Walk(blockid []byte, ledgerPrune bool) error {
 // recoverAfterFailedWalk gives the pending transactions back after a walk that failed: they
 // were all rolled back (durably) when the walk started, and only a successful walk used to
 // re-admit them, so one block that does not verify emptied the node's pool.
-func (t *State) recoverAfterFailedWalk(undoList []*pb.Transaction) {
+func (t *State) recoverAfterFailedWalk(undoList []*pb.Transaction, applied map[string]bool) {
 	t.log.Info("walk failed, recover unconfirm tx", "tx_count", len(undoList))
-	go t.recoverUnconfirmedTx(undoList)
+	go t.recoverUnconfirmedTx(undoList, applied)
+}
+
+// appliedTxids collects the transactions of the blocks a walk has applied: todoBlocks are applied
+// from the last element towards the first, up to and including the block the state now names.
+func appliedTxids(todoBlocks []*pb.InternalBlock, latestBlockid []byte) map[string]bool {
+	applied := map[string]bool{}
+	at := -1
+	for i, blk := range todoBlocks {
+		if bytes.Equal(blk.Blockid, latestBlockid) {
+			at = i
+			break
+		}
+	}
+	if at < 0 {
+		return applied
+	}
+	for i := len(todoBlocks) - 1; i >= at; i-- {
+		for _, tx := range todoBlocks[i].Transactions {
+			applied[string(tx.Txid)] = true
+		}
+	}
+	return applied
 }
 
 // 查询交易
@@ -1271,27 +1293,7 @@ func (t *State) payFee(tx *pb.Transaction, batch kvdb.Batch, block *pb.InternalB
 	return nil
 }
 
-// confirmedOnStateChain reports whether the transaction sits in a block that the state machine
-// has applied: a main-chain block not above the state's own block, the state itself being on the
-// main chain. (The ledger may be ahead of the state, or the state on another branch after a walk
-// that failed: then the question is left to the verification of the transaction.)
-func (t *State) confirmedOnStateChain(txid []byte) bool {
-	if !t.sctx.Ledger.IsTxInTrunk(txid) {
-		return false
-	}
-	tip, err := t.sctx.Ledger.QueryBlockHeader(t.latestBlockid)
-	if err != nil || !tip.InTrunk {
-		return false
-	}
-	confirmed, err := t.sctx.Ledger.QueryTransaction(txid)
-	if err != nil {
-		return false
-	}
-	blk, err := t.sctx.Ledger.QueryBlockHeader(confirmed.Blockid)
-	return err == nil && blk.InTrunk && blk.Height <= tip.Height
-}
-
-func (t *State) recoverUnconfirmedTx(undoList []*pb.Transaction) {
+func (t *State) recoverUnconfirmedTx(undoList []*pb.Transaction, applied map[string]bool) {
 	xTimer := timer.NewXTimer()
 	t.log.Info("start recover unconfirm tx", "tx_count", len(undoList))
 
@@ -1306,9 +1308,10 @@ func (t *State) recoverUnconfirmedTx(undoList []*pb.Transaction) {
 		}
 
 		// 检查交易是否已经被确认（被其他节点打包倒区块并广播了过来）
-		// (the test used to read "err != nil && isConfirm", which never holds: a confirmed
-		// transaction that still verifies - one that only reads keys, say - went back into the pool)
-		isConfirm := t.confirmedOnStateChain(tx.Txid)
+		// (the test used to ask the ledger and read "err != nil && isConfirm", which never holds: a
+		// confirmed transaction that still verifies - one that only reads keys, say - went back into
+		// the pool; what counts is whether the walk itself has applied a block holding it)
+		isConfirm := applied[string(tx.Txid)]
 		if isConfirm {
 			confirmCnt++
 			t.log.Info("this tx has been confirmed,ignore recover", "txid", hex.EncodeToString(tx.Txid))
